@@ -15,10 +15,14 @@ non-missing value, tail ignores missing values); operation order is the kernels'
 namespace HydroVerif.C08
 
 inductive Err
-  | emptyInput        -- nval = 0: the kernels read element 0 (out of contract; the property has length ≥ 1)
+  | emptyInput        -- `if(nval < 1) return DUTILS_ERROR + __LINE__` (the property has length ≥ 1)
   | decreasingIndex   -- `if(ia < iaprev) return DUTILS_ERROR + __LINE__`
   | bufferFull        -- `if(count >= nval) return DUTILS_ERROR + __LINE__`
   | badMonth          -- monthly2daily: start month outside 1..12 (cannot be built as a pandas timestamp)
+  | lengthMismatch    -- dutils.aggregate / flathomogen: `len(aggindex) != len(inputs)` → ValueError
+  | intOverflow       -- `np.int32(operator)` / `np.int32(maxnan)` on a python int outside int32 → OverflowError
+  | badInterpolation  -- monthly2daily: interpolation not in flat / cubic → ValueError
+  | badTimestep       -- compute_aggindex: time step not in AS / AS-MMM / MS / D / h → AssertionError
   deriving DecidableEq, Repr
 
 section kernels
@@ -125,6 +129,76 @@ def flathomogen (maxnan : Int) (l : List (Int × Option α)) : Except Err (List 
 
 end kernels
 
+/-! ### the Python wrappers `dutils.aggregate` / `dutils.flathomogen` (dutils.py:150-250): argument glue -/
+
+def inInt32 (i : Int) : Bool := decide (-2147483648 ≤ i) && decide (i ≤ 2147483647)
+
+/-- `np.array(aggindex).astype(np.int32)` on integer input: C cast, wraps modulo 2^32 -/
+def wrap32 (i : Int) : Int := (i + 2147483648) % 4294967296 - 2147483648
+
+section wrappers
+variable {α : Type} [Add α] [Div α] [LT α] [DecidableLT α] [OfNat α 0] [NatCast α]
+
+/-- `dutils.aggregate(aggindex, inputs, operator, maxnan)`: length check, `np.int32(operator)`,
+`np.int32(maxnan)`, index cast to int32, kernel, `ierr > 0` → ValueError, truncation to `iend` -/
+def aggregateW (op maxnan : Int) (idx : List Int) (vals : List (Option α)) :
+    Except Err (List (Option α)) :=
+  if idx.length ≠ vals.length then .error .lengthMismatch
+  else if !(inInt32 op) || !(inInt32 maxnan) then .error .intOverflow
+  else aggregate op maxnan ((idx.map wrap32).zip vals)
+
+/-- `dutils.flathomogen(aggindex, inputs, maxnan)` -/
+def flathomogenW (maxnan : Int) (idx : List Int) (vals : List (Option α)) :
+    Except Err (List (Option α)) :=
+  if idx.length ≠ vals.length then .error .lengthMismatch
+  else if !(inInt32 maxnan) then .error .intOverflow
+  else flathomogen maxnan ((idx.map wrap32).zip vals)
+
+end wrappers
+
+/-! ### `dutils.compute_aggindex` (dutils.py:116-147): the aggregation index built from time stamps -/
+
+/-- broken-down time stamp: year, month 1..12, day 1..31, hour 0..23 -/
+structure Stamp where
+  y : Int
+  m : Nat
+  d : Nat
+  h : Nat
+  deriving DecidableEq, Repr
+
+/-- accepted time steps; `ASm e` is `"AS-<MMM>"` with `e` the 1-based position of MMM in JAN..DEC -/
+inductive Step
+  | AS | ASm (e : Nat) | MS | D | H
+  deriving DecidableEq, Repr
+
+def monthAbbr : List String :=
+  ["JAN", "FEB", "MAR", "APR", "MAY", "JUN", "JUL", "AUG", "SEP", "OCT", "NOV", "DEC"]
+
+/-- the `startswith("AS")` / `allowed` assertions of `compute_aggindex` -/
+def parseStep (s : String) : Except Err Step :=
+  if s = "AS" then .ok .AS
+  else if s.startsWith "AS" then
+    match monthAbbr.idxOf? ((s.replace "AS-" "")) with
+    | some i => .ok (.ASm (i + 1))
+    | none => .error .badTimestep
+  else if s = "MS" then .ok .MS
+  else if s = "D" then .ok .D
+  else if s = "h" then .ok .H
+  else .error .badTimestep
+
+/-- the index value of one time stamp; `AS-MMM`: `(time + DateOffset(months=11-imth)).year - 1` -/
+def aggIndex : Step → Stamp → Int
+  | .AS, t => t.y
+  | .ASm e, t => t.y + (((t.m - 1 + (12 - e)) / 12 : Nat) : Int) - 1
+  | .MS, t => t.y * 100 + (t.m : Int)
+  | .D, t => t.y * 10000 + (t.m : Int) * 100 + (t.d : Int)
+  | .H, t => t.y * 1000000 + (t.m : Int) * 10000 + (t.d : Int) * 100 + (t.h : Int)
+
+def computeAggindex (timestep : String) (ts : List Stamp) : Except Err (List Int) :=
+  match parseStep timestep with
+  | .error e => .error e
+  | .ok st => .ok (ts.map (aggIndex st))
+
 /-! ### Gregorian calendar (what `DatetimeIndex.days_in_month` returns) -/
 
 def isLeap (y : Int) : Bool := y % 4 == 0 && (y % 100 != 0 || y % 400 == 0)
@@ -229,10 +303,23 @@ def cum (m : Month α) (j : Nat) : α := polyval (coefs m) ((j : α) / (m.n : α
 def cubicMonth (m : Month α) : List α :=
   (List.range m.n).map fun j => cum m (j + 1) - cum m j
 
-def m2dCubic (y0 : Int) (m0 : Nat) (ys : List α) : Except Err (List (List α)) :=
+/-- cubic branch; missing months enter as `minthreshold-1` like any other value (dutils.py:353-354) -/
+def m2dCubic (y0 : Int) (m0 : Nat) (minthr : α) (vs : List (Option α)) : Except Err (List (List α)) :=
   if m0 < 1 ∨ 12 < m0 then .error .badMonth
-  else if ys = [] then .error .emptyInput
-  else .ok ((sweep (cubicInit ys (monthLengths y0 m0 ys.length))).map cubicMonth)
+  else if vs = [] then .error .emptyInput
+  else
+    let ys := vs.map fun v => match v with | none => minthr - 1 | some y => y
+    .ok ((sweep (cubicInit ys (monthLengths y0 m0 ys.length))).map cubicMonth)
+
+/-- `monthly2daily(se, interpolation, minthreshold)`: dispatch on the interpolation name -/
+def m2d (interp : String) (y0 : Int) (m0 : Nat) (minthr : α) (vs : List (Option α)) :
+    Except Err (List (List (Option α))) :=
+  if interp = "flat" then m2dFlat y0 m0 minthr vs
+  else if interp = "cubic" then
+    match m2dCubic y0 m0 minthr vs with
+    | .error e => .error e
+    | .ok ms => .ok (ms.map fun d => d.map some)
+  else .error .badInterpolation
 
 end m2d
 
